@@ -342,8 +342,8 @@ class SampledData(BinwiseData):
         yerr = self.error
         if scale_dz:
             dz = self.binning.dz
-            y *= dz
-            yerr *= dz
+            y = y * dz
+            yerr = yerr * dz
 
         if indicate_zero:
             ax = plotting.zero_line(ax=ax)
